@@ -204,8 +204,25 @@ func (a *aclRecordBuilder) BuildBatchRequest(payload BatchRequestPayload) (batch
 			return batchResult, ErrReadKeyChangeNotAlone
 		}
 	}
+	// a removal rotates the read key. Invites revoked by this very record must not be handed the new
+	// key: their revokes are emitted BEFORE the removal — so they are gone from the state by the time
+	// the removal's rotation is validated — and they are excluded from the new key.
+	revokesFirst := len(payload.Removals.Identities) > 0 && len(payload.InviteRevokes) > 0
+	if revokesFirst {
+		for _, id := range payload.InviteRevokes {
+			content, err = a.buildInviteRevoke(id)
+			if err != nil {
+				return
+			}
+			contentList = append(contentList, content)
+		}
+	}
 	if len(payload.Removals.Identities) > 0 {
-		content, err = a.buildAccountRemove(payload.Removals)
+		revoked := make(map[string]struct{}, len(payload.InviteRevokes))
+		for _, id := range payload.InviteRevokes {
+			revoked[id] = struct{}{}
+		}
+		content, err = a.buildAccountRemove(payload.Removals, revoked)
 		if err != nil {
 			return
 		}
@@ -240,6 +257,9 @@ func (a *aclRecordBuilder) BuildBatchRequest(payload BatchRequestPayload) (batch
 		contentList = append(contentList, content)
 	}
 	for _, id := range payload.InviteRevokes {
+		if revokesFirst {
+			break
+		}
 		content, err = a.buildInviteRevoke(id)
 		if err != nil {
 			return
@@ -909,14 +929,16 @@ func (a *aclRecordBuilder) buildReadKeyChange(payload ReadKeyChangePayload, remo
 }
 
 func (a *aclRecordBuilder) BuildAccountRemove(payload AccountRemovePayload) (rawRecord *consensusproto.RawRecord, err error) {
-	content, err := a.buildAccountRemove(payload)
+	content, err := a.buildAccountRemove(payload, nil)
 	if err != nil {
 		return
 	}
 	return a.buildRecord(content)
 }
 
-func (a *aclRecordBuilder) buildAccountRemove(payload AccountRemovePayload) (value *aclrecordproto.AclContentValue, err error) {
+// buildAccountRemove removes the accounts and rotates the read key; revokedInvites, keyed by invite record
+// id, are invites revoked earlier in the same record and therefore excluded from the new key.
+func (a *aclRecordBuilder) buildAccountRemove(payload AccountRemovePayload, revokedInvites map[string]struct{}) (value *aclrecordproto.AclContentValue, err error) {
 	deletedMap := map[string]struct{}{}
 	for _, key := range payload.Identities {
 		permissions := a.state.Permissions(key)
@@ -940,7 +962,7 @@ func (a *aclRecordBuilder) buildAccountRemove(payload AccountRemovePayload) (val
 		}
 		marshalledIdentities = append(marshalledIdentities, protoIdentity)
 	}
-	rkChange, err := a.buildReadKeyChange(payload.Change, deletedMap, nil)
+	rkChange, err := a.buildReadKeyChange(payload.Change, deletedMap, revokedInvites)
 	if err != nil {
 		return nil, err
 	}
